@@ -14,6 +14,7 @@ import (
 	"net"
 	"os"
 	"os/exec"
+	"runtime"
 	"sort"
 	"strings"
 	"sync/atomic"
@@ -670,7 +671,23 @@ func (s *connScn) drain() {
 	}
 }
 
+// debugStranded dumps goroutines when a handed call ended without a result (VERIF_DEBUG=1).
+func (s *connScn) debugStranded() {
+	if os.Getenv("VERIF_DEBUG") == "" {
+		return
+	}
+	for _, c := range s.calls {
+		if len(c.results) == 0 && !c.cancelled {
+			buf := make([]byte, 1<<20)
+			n := runtime.Stack(buf, true)
+			fmt.Fprintf(os.Stderr, "STRANDED call %d steps=%v\n%s\n", c.idx, s.steps, buf[:n])
+			return
+		}
+	}
+}
+
 func (s *connScn) line(model string) string {
+	s.debugStranded()
 	var cx, handed []string
 	for _, c := range s.calls {
 		handed = append(handed, fmt.Sprint(c.idx))
